@@ -56,7 +56,7 @@ ANCHORS = ["glue.core.roi:RectangularROI.contains", "glue.core.roi:EllipticalROI
 KINDS = ["rect", "ellipse", "circle", "annulus", "polygon", "range", "categorical", "proj3d"]
 CLASSNAME = {"rect": "RectangularROI", "ellipse": "EllipticalROI", "circle": "CircularROI", "annulus": "CircularAnnulusROI",
              "polygon": "PolygonalROI", "range": "RangeROI", "categorical": "CategoricalROI", "proj3d": "Projected3dROI"}
-BLOCKS = {"quick": {"rect": 46, "ellipse": 46, "circle": 18, "annulus": 18, "polygon": 62, "range": 18, "categorical": 12, "proj3d": 28},
+BLOCKS = {"quick": {"rect": 46, "ellipse": 46, "circle": 18, "annulus": 18, "polygon": 62, "range": 18, "categorical": 36, "proj3d": 28},
           "thorough": {"rect": 800, "ellipse": 800, "circle": 250, "annulus": 250, "polygon": 900, "range": 250,
                        "categorical": 150, "proj3d": 400}}
 PER_BLOCK = 8
@@ -814,11 +814,37 @@ def run_instance_2d(ctx, kind):
 # ---------------------------------------------------------------- categorical
 def run_instance_categorical(ctx):
     rng = ctx.rng
-    universe = rng.choice([["a", "b", "c", "dd", "e", "zz", ""], ["x1", "x10", "x2", "Y", "y"], [3, 1, 7, 10, -2]])
+    family = rng.choice(["strings", "prefix_strings", "prefix_strings", "ints", "int_categories_float_values", "float_categories_int_values"])
+    container = rng.choice(["list", "ndarray", "object_ndarray"])
+    if family == "strings":
+        universe, extra = rng.choice([["a", "b", "c", "dd", "e", "zz", ""], ["x1", "x10", "x2", "Y", "y"]]), ["zzz", "A", "~"]
+    elif family == "prefix_strings":
+        # labels of different lengths sharing prefixes; the region is mostly built from the short ones, so its category
+        # array is narrower than the tested values ('a' must not select 'ab' / 'abc', 'm1' must not select 'm10')
+        universe, extra = ["a", "ab", "abc", "b", "ba", "m1", "m10", "m2", "m20"], ["abcd", "m", "m100", "bab"]
+    elif family == "ints":
+        universe, extra = [3, 1, 7, 10, -2], [99, -50, 4]
+    elif family == "int_categories_float_values":
+        universe, extra = [1, 2, 3, 10, -2], [1.5, 2.25, 0.99, 3.0000001, -2.5, 10.0, 2.0]     # 1 must not select 1.5
+    else:
+        universe, extra = [1.5, 2.0, 3.25, -0.5], [1, 2, 3, 0, -1]                              # 2.0 selects 2, 1.5 selects nothing
     k = rng.choice([0, 1, 2, 3, len(universe)])
-    cats = [rng.choice(universe) for _ in range(k)]          # unsorted, possibly duplicated on input
-    variant = "empty" if k == 0 else ("ints" if isinstance(universe[0], int) else "strings")
-    roi = CategoricalROI(np.array(cats) if cats else [])
+    if family == "prefix_strings" and rng.random() < 0.6:
+        cats = rng.choice([["a"], ["m1", "m2"], ["a", "b"], ["m1"], ["b", "a", "m2"], ["ab", "m10"]])
+        k = len(cats)
+    else:
+        cats = [rng.choice(universe) for _ in range(k)]      # unsorted, possibly duplicated on input
+    variant = "empty" if k == 0 else family
+    if not cats:
+        roi = CategoricalROI([])
+    elif container == "list":
+        roi = CategoricalROI(list(cats))
+    elif container == "ndarray":
+        roi = CategoricalROI(np.array(cats))
+    else:
+        roi = CategoricalROI(np.array(cats, dtype=object))
+    ctx.count("categorical_container:" + container)
+    values_as_object = family in ("strings", "prefix_strings") and rng.random() < 0.3
     ctx.count("instances:CategoricalROI")
     ctx.count("variant:categorical:" + variant)
     member = set(cats)
@@ -826,8 +852,14 @@ def run_instance_categorical(ctx):
     for step in range(rng.randint(2, 4)):
         pres = rng.choice(["flat", "2d", "3d", "strided", "broadcast", "component", "empty"])
         n = rng.randint(1, 30)
-        extra = ["zzz", "A", "~"] if not isinstance(universe[0], int) else [99, -50, 4]
-        labels = np.array([rng.choice(universe + extra) for _ in range(24)])
+        pool_ = universe + extra
+        if family == "int_categories_float_values":
+            pool_ = [float(v) for v in pool_]
+        labels = np.array([rng.choice(pool_) for _ in range(24)], dtype=object if values_as_object else None)
+        if family in ("strings", "prefix_strings") and cats and max(len(str(c)) for c in cats) < max(len(str(v)) for v in labels.ravel()):
+            ctx.count("categorical_values_wider_than_categories")
+        if values_as_object:
+            ctx.count("categorical_values_object_array")
         if pres == "flat":
             x = labels[:n]
         elif pres == "2d":
@@ -843,19 +875,20 @@ def run_instance_categorical(ctx):
         else:
             from glue.core.component import CategoricalComponent
             x = CategoricalComponent(labels)
-        sig = {"roi": "CategoricalROI", "variant": variant, "presentation": pres, "op": hist[-1] if hist else "construct"}
+        sig = {"roi": "CategoricalROI", "variant": variant, "presentation": pres, "op": hist[-1] if hist else "construct",
+               "categories_container": container}
         try:
             res = np.asarray(roi.contains(x, None))
         except Exception as exc:
             ctx.violation(dict(sig, kind="exception", exc=type(exc).__name__), {"cats": cats, "labels": labels.tolist(), "error": repr(exc)[:200]})
             return
         ref_in = labels if pres == "component" else np.asarray(x)
-        want = np.array([v.item() in member for v in ref_in.ravel()], dtype=bool).reshape(ref_in.shape)
+        want = np.array([(v.item() if hasattr(v, "item") else v) in member for v in ref_in.ravel()], dtype=bool).reshape(ref_in.shape)
         ctx.count("comparisons:CategoricalROI")
         ctx.count("comparisons_op:" + sig["op"])
         ctx.count("points_compared", int(want.size))
         ctx.count("points_compared_inside", int(want.sum()))
-        ctx.evaluation(["categorical", variant, k, pres, list(hist)], nontrivial=bool(want.any() and not want.all()))
+        ctx.evaluation(["categorical", variant, k, container, values_as_object, pres, list(hist)], nontrivial=bool(want.any() and not want.all()))
         if res.shape != want.shape or res.dtype.kind != "b" or not np.array_equal(res, want):
             ctx.violation(dict(sig, kind="contains_mismatch"), {"cats": cats, "labels": ref_in.tolist(), "got": res.tolist(), "want": want.tolist()})
             return
@@ -1122,6 +1155,11 @@ def floors(counters, tier):
                         ("range", "move_to", 40)):
         if g("comparisons_shape_op:%s:%s" % (k, op), 0) < need:
             out.append("fewer than %d comparisons after %s on %s" % (need, op, k))
+    for fam in ("strings", "prefix_strings", "ints", "int_categories_float_values", "float_categories_int_values"):
+        if g("variant:categorical:" + fam, 0) < 5:
+            out.append("fewer than 5 CategoricalROI instances of family %s" % fam)
+    if g("categorical_values_wider_than_categories", 0) < 25:
+        out.append("fewer than 25 CategoricalROI comparisons with tested labels wider than the region's category array")
     for mk in MATRIX_KINDS:
         if g("contains3d_calls_projection:" + mk, 0) < 40:
             out.append("fewer than 40 contains3d comparisons with projection class %s" % mk)
